@@ -1139,7 +1139,7 @@ pub fn replay<S: System>(sys: &S, steps: &[String]) -> Result<Vec<(String, Strin
 
 /// Drive a finite family of deterministic histories through the same step / oracle pipeline as
 /// the search (no state merging: every history is executed once, every prefix state is checked).
-pub fn run_histories<S: System>(sys: &S, hists: &[Vec<String>], threads: usize, inject: bool) -> Report {
+pub fn run_histories<S: System>(sys: &S, hists: &[Vec<String>], threads: usize, inject: bool, sparse: bool) -> Report {
     let t0 = Instant::now();
     let wd = spawn_watchdog(20);
     let next = AtomicUsize::new(0);
@@ -1207,7 +1207,7 @@ pub fn run_histories<S: System>(sys: &S, hists: &[Vec<String>], threads: usize, 
                             rt::hist_push(st.enc());
                             ncbs.push(sys.step(&mut obj, st, &mut cx));
                             o.transitions += 1;
-                            if cx.viols.is_empty() && !cx.halt {
+                            if cx.viols.is_empty() && !cx.halt && (!sparse || k % 16 == 15 || k + 1 == steps.len()) {
                                 rt::hist_push(OBSERVE_MARK);
                                 sys.check_state(&obj, &mut cx);
                                 cx.classes.clear();
